@@ -23,6 +23,7 @@ type ArgvCase struct {
 func genC03(t *rapid.T) ArgvCase {
 	cfg := DefaultCfg()
 	cfg.SingleLetters = rapid.IntRange(0, 1).Draw(t, "sl")
+	cfg.MixedUnknown = rapid.Bool().Draw(t, "mixedunk")
 	spec := GenProg(t, cfg)
 	ac := DefaultArgvCfg()
 	ac.MaxItems = 9
